@@ -1,24 +1,688 @@
-//! C13 — not implemented yet (stub so that the registry compiles).
+//! C13 — global overrides substitute exactly the configured combination, then let go.
+//!
+//! Oracle: an executable, set-based reading of the statement. Observation point 1: the public pure
+//! function `Overrides::override_keys` on tables produced by the real parser, for every ordered
+//! list of distinct active keys up to length 3 (quick) / 4 (thorough) over the 13-key universe plus
+//! targeted full-combination lists. Observation point 2: the OS stream of a real `Kanata` driven
+//! through `Sim` with `override-release-on-activation` yes/no on random press/release histories.
 
+use crate::core::rng::Rng;
+use crate::core::sim::{code_name, osc, render_hist, Ev, Sim};
 use crate::core::{CaseOut, Check, Ctx};
+use crate::gen::hist;
+use kanata_keyberon::key_code::KeyCode;
+use kanata_parser::cfg::OverrideStates;
+use kanata_parser::keys::OsCode;
+use serde_json::{json, Value};
+use std::collections::{BTreeSet, VecDeque};
 
 pub struct C13Check;
 pub static C13: C13Check = C13Check;
+
+const NONMODS: [&str; 5] = ["a", "b", "1", "9", "x"]; // x never has an override
+const MODS: [&str; 8] = ["lctl", "lsft", "lalt", "lmet", "rctl", "rsft", "ralt", "rmet"];
+const NK: usize = 13;
+pub const SIG_ORDER: &str = "C13:not-applied:nonmod-precedes-mod";
+
+fn key_name(i: usize) -> &'static str {
+    if i < 5 {
+        NONMODS[i]
+    } else {
+        MODS[i - 5]
+    }
+}
+fn is_mod(i: usize) -> bool {
+    i >= 5
+}
+fn codes() -> [u16; NK] {
+    let mut c = [0u16; NK];
+    for (i, x) in c.iter_mut().enumerate() {
+        *x = osc(key_name(i));
+    }
+    c
+}
+
+#[derive(Clone, Debug)]
+struct Ovr {
+    in_mods: u8,
+    in_key: usize,
+    out_mods: u8,
+    out_key: usize,
+}
+
+type Mask = u16; // bit i = key i of the universe; bit 15 = some key outside the universe
+
+fn mods_to_mask(m: u8) -> Mask {
+    (m as Mask) << 5
+}
+
+/// Set-based specification. Returns every acceptable result (more than one only when two entries
+/// for the same key match with the same number of modifiers, which the statement leaves open), the
+/// union of removed keys and of added keys for the first acceptable choice (earliest entry on ties).
+fn spec(table: &[Ovr], list: Mask) -> (Vec<Mask>, Mask, Mask) {
+    let mods_present = ((list >> 5) & 0xff) as u8;
+    let mut choices: Vec<Vec<&Ovr>> = vec![];
+    for k in 0..5 {
+        if list & (1 << k) == 0 {
+            continue;
+        }
+        let matching: Vec<&Ovr> = table.iter().filter(|o| o.in_key == k && o.in_mods & mods_present == o.in_mods).collect();
+        if matching.is_empty() {
+            continue;
+        }
+        let best = matching.iter().map(|o| o.in_mods.count_ones()).max().unwrap_or(0);
+        choices.push(matching.into_iter().filter(|o| o.in_mods.count_ones() == best).collect());
+    }
+    let mut results: Vec<(Mask, Mask)> = vec![(0, 0)]; // (removed, added)
+    for ch in &choices {
+        let mut next = vec![];
+        for (r, a) in &results {
+            for o in ch.iter().take(4) {
+                next.push((r | mods_to_mask(o.in_mods) | (1 << o.in_key), a | mods_to_mask(o.out_mods) | (1 << o.out_key)));
+            }
+        }
+        next.truncate(64);
+        results = next;
+    }
+    let (r0, a0) = results[0];
+    let mut acc: Vec<Mask> = results.iter().map(|(r, a)| (list & !r) | a).collect();
+    acc.dedup();
+    (acc, r0, a0)
+}
+
+/// results of every *wrong but explicable* choice: some matching entry that is not a best one
+fn shorter_choice_results(table: &[Ovr], list: Mask) -> Vec<Mask> {
+    let mods_present = ((list >> 5) & 0xff) as u8;
+    let mut out = vec![];
+    for k in 0..5 {
+        if list & (1 << k) == 0 {
+            continue;
+        }
+        for o in table.iter().filter(|o| o.in_key == k && o.in_mods & mods_present == o.in_mods) {
+            out.push((list & !(mods_to_mask(o.in_mods) | (1 << k))) | mods_to_mask(o.out_mods) | (1 << o.out_key));
+        }
+    }
+    out
+}
+
+fn render_table(t: &[Ovr], rng: &mut Rng) -> String {
+    let mut s = String::from("(defoverrides");
+    let side = |mods: u8, key: usize, rng: &mut Rng| -> String {
+        let mut v: Vec<&str> = (0..8).filter(|i| mods & (1 << i) != 0).map(|i| MODS[i]).collect();
+        rng.shuffle(&mut v);
+        let pos = rng.usize(v.len() + 1);
+        v.insert(pos, NONMODS[key]);
+        format!("({})", v.join(" "))
+    };
+    for o in t {
+        s.push_str("\n  ");
+        s.push_str(&side(o.in_mods, o.in_key, rng));
+        s.push(' ');
+        s.push_str(&side(o.out_mods, o.out_key, rng));
+    }
+    s.push_str(")\n");
+    s
+}
+
+fn small_mods(rng: &mut Rng) -> u8 {
+    let n = *rng.pick_weighted(&[(3u32, 0u32), (6, 1), (5, 2), (2, 3), (1, 5), (1, 8)]);
+    let mut m = 0u8;
+    for i in rng.subset(8, n as usize) {
+        m |= 1 << i;
+    }
+    m
+}
+
+fn random_table(rng: &mut Rng) -> Vec<Ovr> {
+    let n = rng.range(1, 7) as usize;
+    let mut t: Vec<Ovr> = vec![];
+    for _ in 0..n {
+        // often extend an existing entry's combination so that longest-match selection matters
+        let (in_key, in_mods) = if !t.is_empty() && rng.chance(1, 2) {
+            let b = rng.pick(&t).clone();
+            let mut m = b.in_mods;
+            if rng.coin() {
+                m |= 1 << rng.usize(8);
+            } else if m != 0 {
+                let bits: Vec<u8> = (0..8).filter(|i| m & (1 << i) != 0).collect();
+                m &= !(1 << *rng.pick(&bits));
+            }
+            (b.in_key, m)
+        } else {
+            (rng.usize(4), small_mods(rng))
+        };
+        t.push(Ovr { in_mods, in_key, out_mods: if rng.chance(1, 3) { in_mods } else { small_mods(rng) }, out_key: rng.usize(5) });
+    }
+    t
+}
+
+fn systematic_table(i: u64) -> Vec<Ovr> {
+    let s = (i & 0xff) as u8;
+    let out = s.rotate_left(3) ^ 0x5a;
+    let mut t = vec![Ovr { in_mods: s, in_key: 0, out_mods: out, out_key: 3 }];
+    if s != 0 {
+        // a shorter combination of the same key listed first, and one listed after
+        let low = s & (s - 1);
+        t.insert(0, Ovr { in_mods: low, in_key: 0, out_mods: 0, out_key: 2 });
+        t.push(Ovr { in_mods: s & !(1 << (7 - s.leading_zeros())), in_key: 0, out_mods: s, out_key: 1 });
+    }
+    t.push(Ovr { in_mods: !s, in_key: 1, out_mods: s, out_key: 0 });
+    t
+}
+
+fn config(table_text: &str, roa: Option<bool>) -> String {
+    let keys = (0..NK).map(key_name).collect::<Vec<_>>().join(" ");
+    let roa = match roa {
+        Some(true) => " override-release-on-activation yes",
+        Some(false) => " override-release-on-activation no",
+        None => "",
+    };
+    format!("(defcfg process-unmapped-keys yes{roa})\n(defsrc {keys})\n(deflayer base {keys})\n{table_text}")
+}
+
+fn mask_names(m: Mask) -> Vec<String> {
+    let mut v: Vec<String> = (0..NK).filter(|i| m & (1 << i) != 0).map(|i| key_name(i).to_string()).collect();
+    if m & 0x8000 != 0 {
+        v.push("<key outside the universe>".into());
+    }
+    v
+}
+fn list_names(l: &[usize]) -> Vec<&'static str> {
+    l.iter().map(|i| key_name(*i)).collect()
+}
+
+struct Real<'a> {
+    ov: &'a kanata_parser::cfg::Overrides,
+    st: OverrideStates,
+    kcs: [KeyCode; NK],
+    codes: [u16; NK],
+    buf: Vec<KeyCode>,
+}
+
+impl<'a> Real<'a> {
+    fn new(ov: &'a kanata_parser::cfg::Overrides) -> Option<Self> {
+        let codes = codes();
+        let mut kcs = [KeyCode::No; NK];
+        for i in 0..NK {
+            kcs[i] = KeyCode::from(OsCode::from_u16(codes[i])?);
+        }
+        Some(Real { ov, st: OverrideStates::new(), kcs, codes, buf: Vec::new() })
+    }
+    fn run(&mut self, list: &[usize]) -> Mask {
+        self.buf.clear();
+        self.buf.extend(list.iter().map(|i| self.kcs[*i]));
+        self.ov.override_keys(&mut self.buf, &mut self.st);
+        let mut m: Mask = 0;
+        for k in &self.buf {
+            let c = u16::from(OsCode::from(*k));
+            match self.codes.iter().position(|x| *x == c) {
+                Some(i) => m |= 1 << i,
+                None => m |= 0x8000,
+            }
+        }
+        m
+    }
+}
+
+fn list_mask(l: &[usize]) -> Mask {
+    l.iter().fold(0, |m, i| m | (1 << i))
+}
+fn mods_first(l: &[usize]) -> Vec<usize> {
+    let mut v: Vec<usize> = l.iter().copied().filter(|i| is_mod(*i)).collect();
+    v.extend(l.iter().copied().filter(|i| !is_mod(*i)));
+    v
+}
+fn nonmod_precedes_mod(l: &[usize]) -> bool {
+    let first_nonmod = l.iter().position(|i| !is_mod(*i));
+    let last_mod = l.iter().rposition(|i| is_mod(*i));
+    matches!((first_nonmod, last_mod), (Some(a), Some(b)) if a < b)
+}
+
+struct PureJudge<'a> {
+    table: &'a [Ovr],
+    cfg_text: &'a str,
+    reported_live: bool,
+    reported_known: bool,
+}
+
+impl PureJudge<'_> {
+    fn judge(&mut self, out: &mut CaseOut, real: &mut Real, l: &[usize]) {
+        let lm = list_mask(l);
+        let (acc, removed, _added) = spec(self.table, lm);
+        let got = real.run(l);
+        out.inc("pure_lists");
+        if removed != 0 {
+            out.inc("pure_lists_with_match");
+            out.inc(&format!("pure_match_chord_size_{}", (removed >> 5).count_ones() + 1));
+        }
+        if acc.len() > 1 {
+            out.inc("pure_lists_with_tie");
+        }
+        if acc.contains(&got) {
+            if acc.len() > 1 && got == acc[0] {
+                out.inc("pure_tie_resolved_to_earliest_entry");
+            }
+            return;
+        }
+        // deviation: does it disappear when the same keys are listed modifiers-first?
+        let mf = mods_first(l);
+        let got_mf = real.run(&mf);
+        if nonmod_precedes_mod(l) && acc.contains(&got_mf) {
+            out.inc("pure_order_deviations");
+            if !self.reported_known {
+                self.reported_known = true;
+                out.violate(
+                    SIG_ORDER,
+                    format!("override not applied (or a shorter one applied) for active keys {:?}: a non-modifier precedes a modifier of its combination in the list; the same keys listed modifiers-first give the specified result", list_names(l)),
+                    json!({"config": self.cfg_text, "history": format!("(pure call) override_keys on {:?}", list_names(l)), "observed": mask_names(got), "expected": mask_names(acc[0]), "modifiers_first_list": list_names(&mf), "observed_modifiers_first": mask_names(got_mf)}),
+                );
+            }
+            return;
+        }
+        out.inc("pure_live_deviations");
+        if self.reported_live {
+            return;
+        }
+        self.reported_live = true;
+        let shorter = shorter_choice_results(self.table, lm);
+        let sig = if got & 0x8000 != 0 {
+            "C13:pure:foreign-key-added"
+        } else if shorter.contains(&got) {
+            "C13:pure:not-longest-match"
+        } else if got == lm && removed != 0 {
+            "C13:pure:not-applied"
+        } else if (got ^ acc[0]) & !(removed | _added) != 0 {
+            "C13:pure:unrelated-key-changed"
+        } else {
+            "C13:pure:wrong-result"
+        };
+        out.violate(
+            sig,
+            format!("override_keys on {:?} gives {:?}, specified {:?}", list_names(l), mask_names(got), mask_names(acc[0])),
+            json!({"config": self.cfg_text, "history": format!("(pure call) override_keys on {:?}", list_names(l)), "observed": mask_names(got), "expected": acc.iter().map(|m| mask_names(*m)).collect::<Vec<_>>(), "modifiers_first_observed": mask_names(got_mf), "table": format!("{:?}", self.table)}),
+        );
+    }
+}
+
+fn enumerate_lists(max_len: usize, cur: &mut Vec<usize>, f: &mut dyn FnMut(&[usize])) {
+    f(cur);
+    if cur.len() == max_len {
+        return;
+    }
+    for i in 0..NK {
+        if !cur.contains(&i) {
+            cur.push(i);
+            enumerate_lists(max_len, cur, f);
+            cur.pop();
+        }
+    }
+}
+
+fn targeted_lists(table: &[Ovr], rng: &mut Rng) -> Vec<Vec<usize>> {
+    let mut v = vec![];
+    for o in table {
+        let mods: Vec<usize> = (0..8).filter(|i| o.in_mods & (1 << i) != 0).map(|i| i + 5).collect();
+        let mut base = mods.clone();
+        base.push(o.in_key);
+        v.push(base.clone());
+        let mut rev: Vec<usize> = mods.iter().rev().copied().collect();
+        rev.push(o.in_key);
+        v.push(rev);
+        for _ in 0..3 {
+            let mut s = base.clone();
+            rng.shuffle(&mut s);
+            v.push(s);
+        }
+        // unrelated key around it, one more modifier, a second non-modifier
+        let mut w = vec![4];
+        w.extend(base.iter());
+        v.push(w);
+        let mut w = base.clone();
+        w.push(4);
+        v.push(w);
+        let extra: Vec<usize> = (5..13).filter(|i| !mods.contains(i)).collect();
+        if !extra.is_empty() {
+            let mut w = vec![*rng.pick(&extra)];
+            w.extend(base.iter());
+            v.push(w.clone());
+            rng.shuffle(&mut w);
+            v.push(w);
+        }
+        let other = (o.in_key + 1 + rng.usize(3)) % 4;
+        let mut w = mods.clone();
+        w.push(other);
+        w.push(o.in_key);
+        v.push(w.clone());
+        rng.shuffle(&mut w);
+        v.push(w);
+    }
+    v
+}
+
+const N_SYS: u64 = 256;
+
+fn n_pure(ctx: &Ctx) -> u64 {
+    N_SYS + ctx.tier.sel(6_000, 6_000)
+}
+fn n_pipe(ctx: &Ctx) -> u64 {
+    ctx.tier.sel(12_000, 100_000)
+}
+
+fn table_for(ctx: &Ctx, idx: u64) -> (Vec<Ovr>, Rng) {
+    if idx < N_SYS {
+        (systematic_table(idx), Rng::new(idx ^ 0xc13))
+    } else {
+        let mut rng = Rng::for_case(ctx.seed, "C13", "pure", idx);
+        (random_table(&mut rng), rng)
+    }
+}
+
+fn run_pure(out: &mut CaseOut, ctx: &Ctx, idx: u64) {
+    let (table, mut rng) = table_for(ctx, idx);
+    let text = config(&render_table(&table, &mut rng), None);
+    let cfg = match kanata_parser::cfg::new_from_str(&text, Default::default()) {
+        Ok(c) => c,
+        Err(e) => {
+            out.violate(
+                "C13:table-rejected",
+                "the parser rejected an override table with exactly one non-modifier per side",
+                json!({"config": text, "history": "", "observed": format!("{e:?}"), "expected": "accepted"}),
+            );
+            return;
+        }
+    };
+    let Some(mut real) = Real::new(&cfg.overrides) else {
+        out.inconclusive = Some("universe key unknown to OsCode::from_u16".into());
+        return;
+    };
+    out.inc("tables");
+    out.max("table_max_in_mods", table.iter().map(|o| o.in_mods.count_ones() as u64).max().unwrap_or(0));
+    let mut shape: Vec<String> = table.iter().map(|o| format!("{}{}>{}", o.in_mods.count_ones(), NONMODS[o.in_key], o.out_mods.count_ones())).collect();
+    shape.sort();
+    out.tag(format!("tbl:{}", shape.join(",")));
+    let mut j = PureJudge { table: &table, cfg_text: &text, reported_live: false, reported_known: false };
+    let max_len = ctx.tier.sel(3, 4);
+    let mut cur = vec![];
+    enumerate_lists(max_len, &mut cur, &mut |l| j.judge(out, &mut real, l));
+    for l in targeted_lists(&table, &mut rng) {
+        out.inc("pure_targeted_lists");
+        j.judge(out, &mut real, &l);
+    }
+    if idx % 300 == 0 {
+        out.sample = Some(json!({"part": "pure", "config": text, "lists": format!("all ordered lists of distinct keys up to length {max_len} over {:?} plus targeted full combinations", (0..NK).map(key_name).collect::<Vec<_>>())}));
+    }
+}
+
+// ------------------------------------------------------------------ pipeline
+
+fn run_pipeline(out: &mut CaseOut, ctx: &Ctx, r: u64) {
+    let mut rng = Rng::for_case(ctx.seed, "C13", "pipe", r);
+    let table = random_table(&mut rng);
+    let roa = r % 2 == 0;
+    let text = config(&render_table(&table, &mut rng), Some(roa));
+    let cs = codes();
+    // restrict the history to the keys of the table (+ x and one spare modifier) so that combinations occur
+    let mut pool: BTreeSet<usize> = BTreeSet::new();
+    for o in &table {
+        pool.insert(o.in_key);
+        for i in 0..8 {
+            if o.in_mods & (1 << i) != 0 {
+                pool.insert(i + 5);
+            }
+        }
+    }
+    pool.insert(4);
+    pool.insert(5 + rng.usize(8));
+    let pool_codes: Vec<u16> = pool.iter().map(|i| cs[*i]).collect();
+    let gaps: &[u32] = if r % 5 == 0 { &[0, 1, 1, 2, 3] } else { &[1, 1, 2, 3, 6] };
+    let n_ev = 10 + rng.usize(ctx.tier.sel(30, 60));
+    let mut h = hist::consistent(&mut rng, &pool_codes, n_ev, gaps, false);
+    h.push(Ev::T(12));
+    let mut sim = match Sim::new(&text) {
+        Ok(s) => s,
+        Err(e) => {
+            out.violate("C13:table-rejected", "the parser rejected a valid override configuration", json!({"config": text, "history": render_hist(&h), "observed": e, "expected": "accepted"}));
+            return;
+        }
+    };
+    let ov = sim.k.overrides.clone();
+    let Some(mut real) = Real::new(&ov) else {
+        out.inconclusive = Some("universe key unknown".into());
+        return;
+    };
+    out.inc(if roa { "pipeline_histories_release_on_activation_yes" } else { "pipeline_histories_release_on_activation_no" });
+    out.tag(format!("pipe:roa={roa}:entries={}:pool={}", table.len(), pool.len()));
+    let names: Vec<String> = cs.iter().map(|c| code_name(*c)).collect();
+    let idx_of_code = |c: u16| cs.iter().position(|x| *x == c);
+    let mut pending: VecDeque<Ev> = VecDeque::new();
+    let mut phys: Mask = 0; // processed physical state
+    let mut erased: Mask = 0; // non-modifiers that were overridden since their press
+    let mut prev_removed: Mask = 0;
+    let mut prev_added: Mask = 0;
+    let mut reported = false;
+    let mut judged_ok = true;
+    let witness = |sim: &Sim, what: Value, h: &[Ev], text: &str| -> Value {
+        let mut w = json!({"config": text, "history": render_hist(h), "trace": sim.trace_json()});
+        if let (Some(o), Some(x)) = (w.as_object_mut(), what.as_object()) {
+            for (k, v) in x {
+                o.insert(k.clone(), v.clone());
+            }
+        }
+        w
+    };
+    for (ei, e) in h.iter().enumerate() {
+        let nticks = match e {
+            Ev::T(n) => *n,
+            other => {
+                sim.apply(other);
+                pending.push_back(other.clone());
+                0
+            }
+        };
+        for _ in 0..nticks {
+            let consumed = pending.pop_front();
+            sim.tick();
+            if !judged_ok {
+                continue;
+            }
+            let l = sim.k.layout.b();
+            if l.queue.len() != pending.len() {
+                judged_ok = false;
+                out.inc("pipeline_fifo_model_mismatch");
+                continue;
+            }
+            match &consumed {
+                Some(Ev::P(c)) => {
+                    if let Some(i) = idx_of_code(*c) {
+                        phys |= 1 << i;
+                        erased &= !(1 << i);
+                    }
+                }
+                Some(Ev::R(c)) => {
+                    if let Some(i) = idx_of_code(*c) {
+                        phys &= !(1 << i);
+                        erased &= !(1 << i);
+                    }
+                }
+                _ => {}
+            }
+            // what kanata is about to hold down in this tick, in state order
+            let mut k_list: Vec<usize> = vec![];
+            let mut foreign = false;
+            for kc in l.keycodes() {
+                let c = u16::from(OsCode::from(kc));
+                match idx_of_code(c) {
+                    Some(i) => {
+                        if !k_list.contains(&i) {
+                            k_list.push(i)
+                        }
+                    }
+                    None => foreign = true,
+                }
+            }
+            if roa {
+                if let Some(Ev::P(c)) = &consumed {
+                    if let Some(i) = idx_of_code(*c) {
+                        if !is_mod(i) && !k_list.contains(&i) {
+                            // activated and released at once by override-release-on-activation
+                            k_list.push(i);
+                            out.inc("pipeline_release_on_activation_removals");
+                        }
+                    }
+                }
+            }
+            let km = list_mask(&k_list);
+            let (acc, removed, added) = spec(&table, km);
+            let mut os: Mask = 0;
+            let mut os_foreign = false;
+            for n in &sim.os.keys_down {
+                match names.iter().position(|x| x == n) {
+                    Some(i) => os |= 1 << i,
+                    None => os_foreign = true,
+                }
+            }
+            out.inc("pipeline_ticks_judged");
+            if removed != 0 {
+                out.inc("pipeline_ticks_with_active_override");
+                if removed != prev_removed {
+                    out.inc("pipeline_activations");
+                    out.inc(&format!("pipeline_activation_chord_size_{}", (removed >> 5).count_ones() + 1));
+                }
+            }
+            if prev_removed != 0 && removed != prev_removed {
+                out.inc("pipeline_combination_ends");
+                // modifiers of the ended combination that are still held and are back at the OS
+                let back = prev_removed & 0x1fe0 & phys & os & !removed;
+                if back != 0 {
+                    out.inc("pipeline_modifier_restorations");
+                }
+                if prev_added & !os & !km != 0 {
+                    out.inc("pipeline_outputs_released_at_end");
+                }
+            }
+            erased |= removed & 0x1f;
+            let mut dev: Option<(String, String, Value)> = None;
+            if foreign || os_foreign {
+                dev = Some(("C13:pipeline:foreign-key".into(), "a key outside the configured universe is held".into(), json!({"observed": format!("{:?}", sim.os.keys_down)})));
+            } else if !acc.contains(&os) {
+                // is the difference entirely the pure function's order sensitivity?
+                let pure = real.run(&k_list);
+                let pure_mf = real.run(&mods_first(&k_list));
+                if pure == os && nonmod_precedes_mod(&k_list) && acc.contains(&pure_mf) {
+                    out.inc("pipeline_order_deviation_ticks");
+                    dev = Some((SIG_ORDER.into(), format!("OS holds {:?} while kanata holds {:?}: override not applied because the non-modifier became active before its modifier", mask_names(os), list_names(&k_list)), json!({"observed": mask_names(os), "expected": mask_names(acc[0]), "held_by_kanata_in_order": list_names(&k_list)})));
+                } else {
+                    let extra = os & !acc[0];
+                    let missing = acc[0] & !os;
+                    let sig = if extra & prev_added & !km != 0 {
+                        "C13:pipeline:output-not-released"
+                    } else if missing & 0x1fe0 & phys != 0 {
+                        "C13:pipeline:modifier-not-restored"
+                    } else if pure != os {
+                        "C13:pipeline:os-differs-from-override-result"
+                    } else {
+                        "C13:pipeline:os-set-mismatch"
+                    };
+                    dev = Some((sig.into(), format!("after tick {} the OS holds {:?}, specified {:?} for kanata holding {:?}", sim.now, mask_names(os), mask_names(acc[0]), list_names(&k_list)), json!({"observed": mask_names(os), "expected": acc.iter().map(|m| mask_names(*m)).collect::<Vec<_>>(), "held_by_kanata_in_order": list_names(&k_list), "override_keys_result": mask_names(pure)})));
+                }
+            } else {
+                // link to the physical keys: nothing phantom, no held modifier lost, no unrelated key lost
+                let km_now = list_mask(&l.keycodes().filter_map(|kc| idx_of_code(u16::from(OsCode::from(kc)))).collect::<Vec<_>>());
+                if km_now & !phys != 0 {
+                    dev = Some(("C13:pipeline:phantom-key".into(), "kanata holds a key that is not physically held".into(), json!({"observed": mask_names(km_now), "expected": mask_names(phys)})));
+                } else if phys & 0x1fe0 & !km_now != 0 {
+                    dev = Some(("C13:pipeline:held-modifier-lost".into(), "a physically held modifier is no longer held by kanata".into(), json!({"observed": mask_names(km_now), "expected": mask_names(phys)})));
+                } else if phys & 0x1f & !erased & !km_now != 0 {
+                    dev = Some(("C13:pipeline:unrelated-key-lost".into(), "a physically held key that was never part of an active override is no longer held by kanata".into(), json!({"observed": mask_names(km_now), "expected": mask_names(phys & !erased)})));
+                }
+            }
+            if let Some((sig, what, extra)) = dev {
+                if !reported || sig != SIG_ORDER {
+                    let prefix: Vec<Ev> = h[..=ei].to_vec();
+                    out.violate(sig.clone(), what, witness(&sim, extra, &prefix, &text));
+                }
+                if sig == SIG_ORDER {
+                    reported = true;
+                } else {
+                    judged_ok = false; // one live report per history
+                }
+            }
+            prev_removed = removed;
+            prev_added = added;
+        }
+    }
+    // everything is physically released and 12 ticks have passed
+    if !sim.os.all_up() || sim.k.layout.b().keycodes().next().is_some() {
+        out.violate(
+            "C13:pipeline:stuck-at-end",
+            format!("after all keys were released the OS still holds {:?}", sim.os.keys_down),
+            json!({"config": text, "history": render_hist(&h), "observed": format!("{:?}", sim.os.keys_down), "expected": "nothing held", "trace": sim.trace_json()}),
+        );
+    } else {
+        out.inc("pipeline_histories_ending_all_up");
+    }
+    if r % 400 == 1 {
+        out.sample = Some(json!({"part": "pipeline", "config": text, "history": render_hist(&h), "trace": sim.trace_json()}));
+    }
+}
 
 impl Check for C13Check {
     fn id(&self) -> &'static str {
         "C13"
     }
-    fn n_cases(&self, _ctx: &Ctx) -> u64 {
-        0
+    fn n_cases(&self, ctx: &Ctx) -> u64 {
+        n_pure(ctx) + n_pipe(ctx)
     }
-    fn run_case(&self, _ctx: &Ctx, _idx: u64) -> CaseOut {
-        CaseOut::new()
+    fn describe(&self, ctx: &Ctx, idx: u64) -> Value {
+        if idx < n_pure(ctx) {
+            let (t, mut rng) = table_for(ctx, idx);
+            json!({"part": "pure", "config": config(&render_table(&t, &mut rng), None)})
+        } else {
+            json!({"part": "pipeline", "case": idx - n_pure(ctx)})
+        }
+    }
+    fn run_case(&self, ctx: &Ctx, idx: u64) -> CaseOut {
+        let mut out = CaseOut::new();
+        if idx < n_pure(ctx) {
+            run_pure(&mut out, ctx, idx);
+        } else {
+            run_pipeline(&mut out, ctx, idx - n_pure(ctx));
+        }
+        out
     }
     fn rule(&self) -> String {
-        "not implemented".into()
+        "Pure part: one override table per case, written as configuration text and parsed by the real parser (256 seed-independent tables: every subset of the 8 modifiers as the input modifiers of an override of `a`, with a shorter combination listed before and after it; then random tables of 1-7 entries over non-modifiers {a,b,1,9} with random modifier subsets on both sides, half of them extending/shrinking another entry's combination). For each table, exhaustively every ordered list of distinct keys of length <= 3 (quick) / <= 4 (thorough) over {a,b,1,9,x} + the 8 modifiers, plus targeted lists (each entry's full combination in several orders, with an unrelated key, an extra modifier, a second non-modifier), is passed to Overrides::override_keys and the resulting key set compared with the set-based specification. Pipeline part: random tables, override-release-on-activation alternating yes/no, physically consistent random press/release histories over the keys of the table; after every tick the set of keys the OS holds must equal the specification applied to the keys kanata holds in that tick (Layout::keycodes, plus the key just removed by release-on-activation), kanata's held keys must be consistent with the physical keys, and at the end nothing may be held. Non-trivial = table accepted; distinct = distinct table shape (modifier counts per entry) / pipeline class.".into()
     }
     fn assumptions(&self) -> Vec<String> {
-        vec![]
+        vec![
+            "results are compared as sets of keys (the statement is set-based); duplicates and order inside the key list are not judged".into(),
+            "when two entries for the same key match with the same number of modifiers the statement does not say which wins; either is accepted (the implementation takes the earliest, counted as pure_tie_resolved_to_earliest_entry)".into(),
+            "overrides are applied once to the keys kanata is about to hold; an override's output is not itself overridden again".into(),
+            "pipeline: 'the keys kanata is about to hold down' is read from Layout::keycodes() after each tick; with override-release-on-activation yes the overridden non-modifier is removed inside the tick, so it is added back from the input event consumed in that tick (one queued event per tick, checked against Layout.queue.len())".into(),
+            "pipeline: kanata deliberately drops an overridden non-modifier's key state at the next action/release (eager erasure); such keys are exempt from the 'physically held keys stay held' check from their first override until their release".into(),
+            "known deviation (DESIGN §6 #9): the implementation is order-sensitive; a deviation is classified as that class exactly when a non-modifier precedes a modifier in the list and the same keys listed modifiers-first give a specified result".into(),
+        ]
+    }
+    fn floors(&self, ctx: &Ctx) -> Vec<(&'static str, u64)> {
+        vec![
+            ("tables", 6_000),
+            ("pure_lists", ctx.tier.sel(10_000_000, 100_000_000)),
+            ("pure_lists_with_match", 100_000),
+            ("pure_match_chord_size_3", 1_000),
+            ("pure_match_chord_size_4", 100),
+            ("pure_lists_with_tie", 100),
+            ("pipeline_ticks_judged", 50_000),
+            ("pipeline_activations", 1_000),
+            ("pipeline_combination_ends", 1_000),
+            ("pipeline_modifier_restorations", 100),
+            ("pipeline_outputs_released_at_end", 500),
+            ("pipeline_release_on_activation_removals", 200),
+            ("pipeline_histories_release_on_activation_yes", 500),
+            ("pipeline_histories_release_on_activation_no", 500),
+            ("pipeline_histories_ending_all_up", 2_000),
+        ]
+    }
+    fn exhaustive(&self, _ctx: &Ctx) -> bool {
+        true
     }
 }
